@@ -68,6 +68,8 @@ func main() {
 		cpu1(*seed, *n, *tier)
 	case "dump":
 		dumpStream(*seed, *n)
+	case "profile":
+		profileStream(*seed, *n)
 	case "luaapi":
 		luaapiStream(*seed, *n)
 	case "trap":
